@@ -217,3 +217,19 @@ def const_of(body, operand, depth=0):
     if rhs["k"] == "ref":
         return const_of(body, rhs["place"], depth + 1)
     return None
+
+
+NONDET = (r"(std::collections::hash::map::HashMap|std::collections::hash::set::HashSet|hashbrown::)[^:]*::(iter|keys|values|into_iter|drain|iter_mut|values_mut|into_keys|into_values)$|"
+          r"<std::collections::hash::(map::HashMap|set::HashSet)[^>]* as std::iter::traits::collect::IntoIterator>::into_iter$|"
+          r"std::time::(SystemTime|Instant)::now$|std::env::(var|var_os|vars|vars_os|args|args_os|current_dir|current_exe|temp_dir)$|"
+          r"std::thread::current$|std::process::id$|rand::|getrandom::|terminal_size::terminal_size|std::hash::random::RandomState::new$")
+
+
+def nondet_calls(fx, bodies):
+    out = []
+    for b in bodies:
+        for c in b.calls():
+            q = c.callee_q or c.decl_q or ""
+            if re.search(NONDET, q):
+                out.append(c)
+    return out
